@@ -295,8 +295,10 @@ def run_property(chk, pid):
     res = tlc.validate("MethodCFG_Trace", "MethodCFG_Trace.cfg", recs, shards=16, heap="3g", timeout=6000)
     chk.trace_result(res, "MethodCFG_Trace")
     rej_idx = {i for i, _ in res["rejects"]}
-    chk.s2c = n_s2c - sum(1 for i in rej_idx if i < n_s2c)
-    chk.c2s = (len(recs) - n_s2c) - sum(1 for i in rej_idx if i >= n_s2c)
+    # records examined; trace_result() already added the accepted ones to c2s
+    chk.c2s -= res["accepted"]
+    chk.s2c += n_s2c
+    chk.c2s += len(recs) - n_s2c
     for gi, why in res["rejects"]:
         rec = recs[gi]
         rel = sorted(w for w in why[0] if w in mine)
